@@ -1052,16 +1052,16 @@ fn scenario_rank(s: &str) -> usize {
 
 fn rule_for(prop: &str) -> &'static str {
     match prop {
-        "C01" => "seeded histories of add/limit/marker/search calls (hist), registry calls (registry) and permuted deliveries (replica), each executed in the checked build (debug assertions, overflow checks, hooks) and in the shipping build; oracle: no panic/abort/hang on any op and identical history digests across the two builds. Non-trivial = distinct op list in which a search returned a hit and the history also changed the limit or the markers.",
-        "C06" => "seeded histories on stores of 0..400 records; at sampled searches the hit list is compared with one single-record store per hit (soundness, any size) and, for n <= 10*limit, with the prefix of an unlimited fresh store and the set of records that hit alone. Non-trivial = distinct op list with a compared search that had >= 2 hits and n > limit.",
-        "C07" => "the same add messages delivered to 2-4 replicas in different orders on differently polluted caller threads; after delivery all replicas must answer identically, and pairs of hits re-delivered alone (both orders) must keep their relative order. Non-trivial = distinct op list in which two replicas received a returned pair in opposite orders, or a pair check ran on >= 2 hits.",
-        "C10" => "seeded histories over {add, clear, set limit, set markers, search} with scratch pollution, thread migration, fresh threads, capacity knob; the even run indices below 74896 enumerate all histories of 1..5 ops over an 8-op alphabet. At every search the store under test (long-lived, polluted) must equal a store rebuilt from the logical state on a pristine thread. Non-trivial = distinct op list in which a compared search returned >= 1 hit after a state-changing op that followed an earlier search on the same store.",
-        "C12" => "as C10 with rating ties, duplicate titles, limits 0..n+2 and separator-only queries; spec oracle computed from the model's (rating, normalised title) list only. Non-trivial = distinct op list with an empty-query search where n > limit >= 1 and there was a rating tie or an add since the previous empty-query search.",
-        "C16" => "long-lived DamerauLevenshtein instances per simulated caller thread (capacity knob 0..20), several clients' planned comparisons interleaved by the scheduler, lengths alternating 0..4 and 15..70, plus every ordered pair of words of length <= 3 over a 6-symbol mixed alphabet (first 1049 run indices). Oracles: bit-equality with a fresh instance on a pristine thread, prefix cells vs. own computation, symmetry, identity, half-steps, Levenshtein upper bound, half unrestricted-Damerau lower bound, discount monotonicity; word_match through the thread-local scratch vs. pristine thread. Non-trivial = distinct op list with a call whose predecessor on the same instance was longer or that triggered growth.",
-        "C17" => "long-lived Jaccard instances per simulated caller thread (capacity knob), interleaved clients, lengths alternating short/long, plus the systematic pairs; oracle: bit-equality with |A∩B|/|A∪B| over BTreeSet, symmetry, range, invariance under repetition/permutation, equality with a fresh instance. Non-trivial = distinct op list with a call whose predecessor was longer or that exceeded the initial capacity.",
-        "C18" => "seeded sequences of adds (duplicates, empty titles, one-letter words, shared grams) interleaved with index.prepare(query, size); oracle: gram sets recomputed from the public tokeniser. Non-trivial = distinct op list with a prepare that had >= 2 positives after >= 2 adds.",
-        "C19" => "scratch scenario (direct driving, capacity knob, alternating long/short up to 3.5x capacity) plus hist and registry runs with pollution; monitored: guarded row/column/index assertions at every unchecked access and std's unsafe-precondition checks (abort). Non-trivial = distinct op list in which a buffer grew and a later call was shorter.",
-        "C20" => "2 simulated caller threads with disjoint id pools, 2-5 registry clients, valid calls only, destroy/re-create, limit swings, pollution; after every call every live id's buffer must equal the hits of its last search, which in turn equal a stand-alone store driven with the same per-id history. Non-trivial = distinct op list with >= 2 live ids on one thread and a non-empty buffer observed across a foreign op.",
+        "C01" => "seeded histories of add/limit/marker/search calls (hist), registry calls (registry) and permuted deliveries (replica), each executed in the checked build (debug assertions, overflow checks, hooks) and in the shipping build; every hist run also carries the code point (run mod 0x530) in a title and three queries; oracle: no panic/abort/hang on any op and identical history digests across the two builds. Non-trivial = distinct op list in which a search returned a hit and the history also changed the limit or the markers.",
+        "C06" => "seeded histories on stores of 0..400 records (one run in 150: 1030..1600 or 4100..5000 records under a limit that keeps |store| <= 10*limit); at sampled searches the hit list is compared with one single-record store per hit (soundness, any size) and, for n <= 10*limit, with the prefix of an unlimited fresh store and the set of records that hit alone; checked and shipping build. Non-trivial = distinct op list with a compared search that had >= 2 hits and n > limit.",
+        "C07" => "the same add messages delivered to 2-5 replicas in different orders on differently polluted caller threads (foreign-language clients using the same vocabulary, searches and limit swings during delivery, ratings from all of usize, one run in 150 with 1030..1600 records); after delivery all replicas must answer identically, and pairs of hits re-delivered alone (both orders) must keep their relative order. Non-trivial = distinct op list in which two replicas received a returned pair in opposite orders, or a pair check ran on >= 2 hits.",
+        "C10" => "seeded histories over {add, clear, set limit, set markers, search, search bursts of 255..4097 calls} with scratch pollution, vocabulary pollution in another language, echo of a query to a peer store, thread migration, fresh threads, capacity knob; the even run indices below 74896 enumerate all histories of 1..5 ops over an 8-op alphabet. At every search the store under test (long-lived, polluted) must equal a store rebuilt from the logical state on a pristine thread; all repetitions of a burst must agree. Checked and shipping build. Non-trivial = distinct op list in which a compared search returned >= 1 hit after a state-changing op that followed an earlier search on the same store.",
+        "C12" => "as C10 with rating ties, duplicate titles, ratings from all of usize, limits 0..n+2 and queries made of any non-alphanumeric code points below U+3000; whether a query is empty is decided from its characters, not by the tokeniser under test; spec oracle computed from the model's (rating, normalised title) list only, plus: an un-highlighted hit is the stored title as the tokeniser keeps it. Non-trivial = distinct op list with an empty-query search where n > limit >= 1 and there was a rating tie or an add since the previous empty-query search.",
+        "C16" => "long-lived DamerauLevenshtein instances per simulated caller thread (capacity knob 0..20), several clients' planned comparisons interleaved by the scheduler, lengths alternating 0..4 and 15..70 (250 in deep runs), alphabets incl. code points that agree in their low 7/8/16 bits and invisible format characters, one comparison in six with an unfinished word, bursts of 254..4100 and 65534..65537 identical calls, word families with a common prefix, plus every ordered pair of words of length <= 3 over a 6-symbol mixed alphabet (first 1049 run indices). Oracles: bit-equality with a fresh instance on a pristine thread, prefix cells vs. own computation, symmetry, identity, half-steps, Levenshtein upper bound, half unrestricted-Damerau lower bound, discount monotonicity; word_match through the thread-local scratch vs. pristine thread. Non-trivial = distinct op list with a call whose predecessor on the same instance was longer or that triggered growth, or a burst.",
+        "C17" => "long-lived Jaccard instances per simulated caller thread (capacity knob), interleaved clients, lengths alternating short/long, alphabets up to 60 symbols, aliased inputs (prefix/suffix cut from one buffer), plus the systematic pairs; oracle: bit-equality with |A∩B|/|A∪B| over BTreeSet, symmetry, range, invariance under repetition/permutation and under consistent renaming of all characters, equality with a fresh instance; the word matcher's Jaccard pre-filter on the caller thread vs. a pristine thread and under renaming. Non-trivial = distinct op list with a call whose predecessor was longer or that exceeded the initial capacity.",
+        "C18" => "seeded sequences of adds (duplicates, empty titles, one-letter words, shared grams, 21..90-word titles, mega titles with hundreds of distinct grams, aliasing code points) interleaved with index.prepare(query, size) on stores that also migrate between threads; oracle: gram sets recomputed from the public tokeniser; a panic of prepare that an index built from the same adds on a fresh thread does not have. Checked and shipping build. Non-trivial = distinct op list with a prepare that had >= 2 positives after >= 2 adds.",
+        "C19" => "scratch scenario (direct driving, capacity knob, alternating long/short up to 3.5x capacity, bursts) plus hist and registry runs with pollution; monitored: guarded row/column/index assertions at every unchecked access and std's unsafe-precondition checks (abort); thorough tier adds about 45 micro-runs under Miri. Non-trivial = distinct op list in which a buffer grew and a later call was shorter.",
+        "C20" => "2 simulated caller threads with disjoint id pools (ids that agree modulo 2^8, 2^16, 2^32 included), 2-6 registry clients, valid calls only, destroy/re-create, limit swings, pollution; after every call every live id's buffer must equal the hits of its last search, which in turn equal a stand-alone store driven with the same per-id history; a panic inside the registry's own bookkeeping on a valid call is a violation. Checked and shipping build. Non-trivial = distinct op list with >= 2 live ids on one thread and a non-empty buffer observed across a foreign op.",
         _ => "",
     }
 }
